@@ -195,6 +195,7 @@ func wrappers(e *env, tier string) {
 	cs := &countShedder{e: e, reqs: map[int]*req{}}
 	if real {
 		cs.w = newWorld(e, cfg, 0, false)
+		cs.w.behindWrappers = true
 		e.setCPU([]int64{1000, cfg.thr, 0}[t.Intn(3)])
 	}
 	metrics := stat.VerifC02NewMetrics(fmt.Sprintf("c02-%d", t.Pos()))
